@@ -122,6 +122,19 @@ def run(ctx):
         errs = [blk for blk, i, st in b.assigns() if st["rv"]["k"] == "agg" and st["rv"].get("variant") == "Err" and "result::Result" in st["rv"].get("adt", "") and st["lhs"]["l"] == 0]
         ok = bool(errs) and bool(bn_) and all(b.uncrossed_path([0], [e], blocks=bn_) is None for e in errs)
         r2.check(ok, "io-error=>ban:%s" % fn.split("::")[-2], "%s returns Err only after banning the address" % fn.split("::")[-2], "%s can fail without banning the server that failed" % fn.split("::")[-2])
+        # ... whatever else happens on the way out: from the edge on which the server's failure is known (Err of the server I/O, the elapsed timeout)
+        # every way to the end of the helper passes the ban - a `?` on telling the client (who may be gone: its own timeout is often the shorter one)
+        # must not come first
+        bsw_ = switches(b)
+        io_pred = lambda o, b=b: o.kind == "call" and (re.search(r"^pgcat::server::Server::(send|recv)$", o.call.name) or o.call.name == "tokio::time::timeout::timeout")
+        e_io, _o, _ = discr_edges(b, r"core::result::Result<", "Err", origin_pred=io_pred, switches_cache=bsw_)
+        e_el, _o, _ = discr_edges(b, r"core::result::Result<.*Elapsed>", "Err", switches_cache=bsw_)
+        rets_ = [bb for bb, blk in enumerate(b.blocks) if blk["term"]["k"] == "return"]
+        fe_ = set(e_io) | set(e_el)
+        wit = b.uncrossed_path([d for _, d in fe_], rets_, blocks=bn_) if fe_ else [0]
+        r2.check(bool(fe_) and wit is None, "io-error=>ban-before-anything-fallible:%s" % fn.split("::")[-2], "%s: once the server's failure is known, every way out passes ConnectionPool::ban" % fn.split("::")[-2],
+                 "%s can leave after a server failure without banning the server - e.g. when writing the error to the client fails first (`?`): a client that gave up before the pool's statement_timeout "
+                 "takes the ban with it, the hung replica stays in rotation and the next clients are sent to it" % fn.split("::")[-2], "", wit and wit != [0] and b.describe_path(wit))
     # ---------------- R3 banned servers get no checkout
     r3 = ctx.rule("C07-R3", "a banned address is checked out only if try_unban() returned true, and is then health-checked unconditionally", floor=3)
     if g and bget:
